@@ -101,6 +101,8 @@ class Gen:
             opts += [(2, "mul")]
         if any(x < w for x in ws):
             opts += [(2, "resize")]
+        if any(x < w for x in ws):
+            opts += [(2, "conv")]
         opts += [(2, "view"), (1, "inv"), (1, "select")]
         if any(x == w for x in ws):
             opts += [(2, "truncdiv")]
@@ -147,6 +149,11 @@ class Gen:
         if c == "resize":
             w0 = rs.choice([x for x in ws if x < w])
             return ["resize", t, self.gen((k, w0), d + 1)]
+        if c == "conv":
+            # constructor conversion to a wider type: value preserving (Unsigned -> Unsigned / Signed zero-extends, Signed -> Signed sign-extends)
+            w0 = rs.choice([x for x in ws if x < w])
+            k0 = rs.choice(["U", "S"]) if k == "S" else "U"
+            return ["conv", t, self.gen((k0, w0), d + 1)]
         if c == "view":
             k2 = rs.choice([x for x in ("U", "S", "BV") if x != k])
             return ["view", t, self.gen((k2, w), d + 1)]
@@ -326,6 +333,9 @@ def r(e, bit_as_cond=False):
         return f"({r(e[3])} if {r(e[2])} else {r(e[4])})"
     if op == "resize":
         return f"{r(e[2])}.resize({t[1]})"
+    if op == "conv":
+        # run-time operands: a typed temporary (the constructor form takes constants only); constants: the constructor
+        return f"cohdl.Temporary[{tstr(t)}]({r(e[2])})" if ports_used(e[2]) else f"{tstr(t)}({r(e[2])})"
     if op == "view":
         return f"{r(e[2])}.{ {'U': 'unsigned', 'S': 'signed', 'BV': 'bitvector'}[t[0]] }"
     if op == "select":
@@ -479,6 +489,8 @@ def ev(e, env):
     if op == "ite":
         return ev(e[3], env) if ev(e[2], env) else ev(e[4], env)
     if op == "resize":
+        return wrap(num(e[2], env), t)
+    if op == "conv":
         return wrap(num(e[2], env), t)
     if op == "view":
         return ev(e[2], env)
